@@ -116,7 +116,7 @@ type gen struct {
 type site struct{ fn, field, what string }
 
 var flagSites = map[site]bool{}
-var flagFields = map[string]bool{"nestedView": true, "isQuery": true, "isFeeDelegation": true, "isView": true}
+var flagFields = map[string]bool{"nestedView": true, "isQuery": true, "isFeeDelegation": true, "isView": true, "lastRecoveryPoint": true}
 
 func (g *gen) where() string {
 	if len(g.lits) == 0 {
@@ -227,7 +227,10 @@ func main() {
 			}
 			g.funcs[name] = fd
 			ast.Inspect(fd.Body, func(x ast.Node) bool {
-				if se, ok := x.(*ast.SelectorExpr); ok && se.Sel.Name == "nestedView" {
+				if id, ok := x.(*ast.Ident); ok && (id.Name == "createRecoveryPoint" || id.Name == "clearRecoveryPoint") {
+					g.touches[name] = true
+				}
+				if se, ok := x.(*ast.SelectorExpr); ok && (se.Sel.Name == "nestedView" || se.Sel.Name == "lastRecoveryPoint") {
 					if _, isIf := x.(*ast.IfStmt); !isIf {
 						g.touches[name] = true
 					}
@@ -584,9 +587,25 @@ func (g *gen) call(e *ast.CallExpr, callees *[]string) string {
 		g.verb(name)
 		return fmt.Sprintf("(Mut %q %s)", name, k)
 	}
+	if name == "clearRecoveryPoint" && !isSel {
+		// unlinks (and with isError reverts) the recovery points from `start` on: tracked by VmGuard/RecPoint.v
+		g.verb(name)
+		return `(Mut "RecPop" KNever)`
+	}
 	if restore[name] {
 		g.verb(name)
 		return "Skip"
+	}
+	if name == "createRecoveryPoint" && !isSel {
+		// links a recovery point carrying the 5th argument as the amount to move back on revert
+		kind := "amount"
+		if len(e.Args) >= 5 && g.text(e.Args[4]) == "zeroBig" {
+			kind = "zero"
+		}
+		if _, ok := g.funcs[name]; ok {
+			*callees = append(*callees, name)
+		}
+		return fmt.Sprintf(`(Seq (Mut "RecPush:%s" KNever) (Call %q))`, kind, name)
 	}
 	if (name == "NewVmContext" || name == "NewVmContextQuery") && !isSel {
 		what := "call"
@@ -648,8 +667,17 @@ func (g *gen) stmt(s ast.Stmt, callees *[]string) string {
 		if x.Else != nil {
 			els = g.stmt(x.Else, callees)
 		}
+		then := g.block(x.Body.List, callees)
+		// `if r := sendBalance(...); r != nil { ... }`: in this branch nothing was transferred (VmGuard/RecPoint.v)
+		if as, ok := x.Init.(*ast.AssignStmt); ok && len(as.Rhs) == 1 && len(as.Lhs) == 1 {
+			if ce, ok := as.Rhs[0].(*ast.CallExpr); ok {
+				if id, ok := ce.Fun.(*ast.Ident); ok && id.Name == "sendBalance" && g.text(x.Cond) == g.text(as.Lhs[0])+" != nil" {
+					then = seq([]string{`(Mut "SendFailed" KNever)`, then})
+				}
+			}
+		}
 		return seq([]string{g.stmt(x.Init, callees), g.exprs(x.Cond, callees),
-			"(If " + g.cond(x.Cond) + " " + g.block(x.Body.List, callees) + " " + els + ")"})
+			"(If " + g.cond(x.Cond) + " " + then + " " + els + ")"})
 	case *ast.ForStmt:
 		return seq([]string{g.stmt(x.Init, callees),
 			"(Loop " + seq([]string{g.exprs(x.Cond, callees), g.block(x.Body.List, callees), g.stmt(x.Post, callees)}) + ")"})
@@ -717,6 +745,10 @@ func (g *gen) stmt(s ast.Stmt, callees *[]string) string {
 			}
 		}
 		for i, l := range x.Lhs {
+			if se, ok := l.(*ast.SelectorExpr); ok && se.Sel.Name == "lastRecoveryPoint" && i < len(x.Rhs) &&
+				strings.HasSuffix(g.text(x.Rhs[i]), ".prev") && g.cur != "clearRecoveryPoint" {
+				parts = append(parts, `(Mut "RecPop" KNever)`)
+			}
 			if g.text(l) == "ctx.events" && i < len(x.Rhs) {
 				if ce, ok := x.Rhs[i].(*ast.CallExpr); ok {
 					if id, ok := ce.Fun.(*ast.Ident); ok && id.Name == "append" {
